@@ -44,7 +44,7 @@ static int fsign(int f, int sign) { return f == F_INT32 || f == F_INT64 ? 1 : (f
 static int fbase(int f, int base) { return (f == F_INT32 || f == F_INT64) ? 10 : base; }
 
 #define GUARD 16
-/* one call with buffer length L; checks text prefix, NUL, return value and that nothing else is written */
+/* one call with buffer length L; checks text prefix, NUL, return value and that nothing outside the buffer is written */
 static void check_one(int f, uint64_t v, int base, int sign, size_t L) {
     char exp[80]; int n = ref_fmt(v, fbits(f), fbase(f, base), fsign(f, sign), exp);
     size_t want = (size_t) n < L ? (size_t) n : L, ret, i;
@@ -57,7 +57,9 @@ static void check_one(int f, uint64_t v, int base, int sign, size_t L) {
         if (ret != want) vh_violation("C14:return-value", "%s(val=0x%llx base=%d sign=%d len=%zu) returned %zu, expected %zu (text %s)", fnames[f], (unsigned long long) v, base, sign, L, ret, want, exp);
         else if (memcmp(buf, exp, want) != 0) vh_violation("C14:digits", "%s(val=0x%llx base=%d sign=%d len=%zu) wrote \"%s\", expected prefix of \"%s\"", fnames[f], (unsigned long long) v, base, sign, L, vh_esc(buf, want), exp);
         else if ((size_t) n < L && buf[n] != 0) vh_violation("C14:nul-missing", "%s(val=0x%llx base=%d len=%zu): no NUL after %d characters", fnames[f], (unsigned long long) v, base, L, n);
-        else for (i = (size_t) n + 1; i < L; i++) if ((unsigned char) buf[i] != 0xA5) { vh_violation("C14:stray-write", "%s(val=0x%llx base=%d len=%zu) modified byte %zu beyond the terminator", fnames[f], (unsigned long long) v, base, L, i); break; }
+        /* bytes of the caller's buffer behind the terminator are the function's to use (the statement promises "nothing beyond the buffer"); a
+         * formatter that pads them, strncpy-fashion, is fine (round 7, benign change C14-H) */
+        (void) i;
         free(buf);
     }
 #else
@@ -70,7 +72,7 @@ static void check_one(int f, uint64_t v, int base, int sign, size_t L) {
         else if ((size_t) n < L && buf[n] != 0) vh_violation("C14:nul-missing", "%s(val=0x%llx base=%d len=%zu): no NUL after %d characters", fnames[f], (unsigned long long) v, base, L, n);
         else {
             for (i = 0; i < GUARD; i++) if ((unsigned char) area[i] != 0xA5) { vh_violation("C14:underrun", "%s(val=0x%llx base=%d len=%zu) wrote before the buffer", fnames[f], (unsigned long long) v, base, L); break; }
-            for (i = ((size_t) n < L ? (size_t) n + 1 : L); i < 96 + GUARD; i++) if ((unsigned char) buf[i] != 0xA5) { vh_violation(i >= L ? "C14:overrun" : "C14:stray-write", "%s(val=0x%llx base=%d len=%zu) modified byte %zu", fnames[f], (unsigned long long) v, base, L, i); break; }
+            for (i = L; i < 96 + GUARD; i++) if ((unsigned char) buf[i] != 0xA5) { vh_violation("C14:overrun", "%s(val=0x%llx base=%d len=%zu) modified byte %zu", fnames[f], (unsigned long long) v, base, L, i); break; }
         }
     }
 #endif
